@@ -279,6 +279,121 @@ theorem best_is_min (evs : List BEv) : ∀ (s s' : Best),
           · cases hs1
     · cases hr
 
+/-! ### the legacy trainer's candidate table (ZDICT_insertDictItem, tied at function level by `dins`) -/
+
+theorem insertFromEnd_length (e : DictItem) (rev : List DictItem) : (insertFromEnd e rev).length = rev.length + 1 := by
+  induction rev with
+  | nil => simp [insertFromEnd]
+  | cons x rest ih =>
+    unfold insertFromEnd
+    split <;> simp [ih]
+
+/-- **table_insert_bounded** (memory safety of the insertion): in a table of `maxSize ≥ 2` slots holding at most `maxSize - 1` entries besides slot 0, an insertion
+leaves at most `maxSize - 1` entries: the new table->pos (entries + 1) is at most `maxSize`, every slot written has an index ≤ maxSize - 1 - also when the table
+was full (the lowest-ranked entry is dropped, not pushed to slot `maxSize`). -/
+theorem table_insert_bounded (maxSize : Nat) (t : List DictItem) (e : DictItem) (hm : 2 ≤ maxSize) :
+    (insertItem maxSize t e).length + 1 ≤ maxSize ∧ (insertItem maxSize t e).length ≤ t.length + 1 ∧
+    (t.length + 1 < maxSize → (insertItem maxSize t e).length = t.length + 1) := by
+  unfold insertItem
+  rw [List.length_reverse, insertFromEnd_length, List.length_reverse, List.length_take]
+  refine ⟨by omega, by omega, by omega⟩
+
+theorem table_insertAll_bounded (maxSize : Nat) (es : List DictItem) (hm : 2 ≤ maxSize) : (insertAll maxSize es).length + 1 ≤ maxSize := by
+  unfold insertAll
+  suffices h : ∀ (t : List DictItem), t.length + 1 ≤ maxSize → (es.foldl (insertItem maxSize) t).length + 1 ≤ maxSize from h [] (by simp; omega)
+  induction es with
+  | nil => intro t ht; simpa using ht
+  | cons e rest ih => intro t _; exact ih _ (table_insert_bounded maxSize t e hm).1
+
+theorem insertFromEnd_mem (e : DictItem) (rev : List DictItem) : e ∈ insertFromEnd e rev := by
+  induction rev with
+  | nil => simp [insertFromEnd]
+  | cons x rest ih =>
+    unfold insertFromEnd
+    split
+    · exact List.mem_cons_of_mem _ ih
+    · exact List.mem_cons_self
+
+/-- the new candidate is always in the table afterwards (it replaces the lowest-ranked entry of a full table even when it ranks lower still), and nothing else is
+added: every other entry was there before -/
+theorem table_insert_mem (maxSize : Nat) (t : List DictItem) (e : DictItem) :
+    e ∈ insertItem maxSize t e ∧ ∀ x ∈ insertItem maxSize t e, x = e ∨ x ∈ t := by
+  unfold insertItem
+  refine ⟨List.mem_reverse.mpr (insertFromEnd_mem e _), ?_⟩
+  intro x hx
+  have hx' := List.mem_reverse.mp hx
+  have key : ∀ (rev : List DictItem), x ∈ insertFromEnd e rev → x = e ∨ x ∈ rev := by
+    intro rev
+    induction rev with
+    | nil => intro h; simp [insertFromEnd] at h; exact Or.inl h
+    | cons y rest ih =>
+      intro h
+      unfold insertFromEnd at h
+      split at h
+      · rcases List.mem_cons.mp h with h | h
+        · exact Or.inr (h ▸ List.mem_cons_self)
+        · rcases ih h with h | h
+          · exact Or.inl h
+          · exact Or.inr (List.mem_cons_of_mem _ h)
+      · rcases List.mem_cons.mp h with h | h
+        · exact Or.inl h
+        · exact Or.inr h
+  rcases key _ hx' with h | h
+  · exact Or.inl h
+  · exact Or.inr (List.mem_of_mem_take (List.mem_reverse.mp h))
+
+/-- rank order of the used slots: savings never increase from slot 1 on -/
+def Ranked (t : List DictItem) : Prop := t.Pairwise (fun a b => b.savings ≤ a.savings)
+
+theorem insertFromEnd_ascending (e : DictItem) (rev : List DictItem) (h : rev.Pairwise (fun a b => a.savings ≤ b.savings)) :
+    (insertFromEnd e rev).Pairwise (fun a b => a.savings ≤ b.savings) := by
+  induction rev with
+  | nil => simp [insertFromEnd]
+  | cons x rest ih =>
+    have hx : ∀ y ∈ rest, x.savings ≤ y.savings := fun y hy => List.rel_of_pairwise_cons h hy
+    have hr := List.Pairwise.of_cons h
+    unfold insertFromEnd
+    split
+    · rename_i hlt
+      refine List.pairwise_cons.mpr ⟨?_, ih hr⟩
+      intro y hy
+      have key : ∀ (l : List DictItem), y ∈ insertFromEnd e l → y = e ∨ y ∈ l := by
+        intro l
+        induction l with
+        | nil => intro h; simp [insertFromEnd] at h; exact Or.inl h
+        | cons z zs ihz =>
+          intro h
+          unfold insertFromEnd at h
+          split at h
+          · rcases List.mem_cons.mp h with h | h
+            · exact Or.inr (h ▸ List.mem_cons_self)
+            · rcases ihz h with h | h
+              · exact Or.inl h
+              · exact Or.inr (List.mem_cons_of_mem _ h)
+          · rcases List.mem_cons.mp h with h | h
+            · exact Or.inl h
+            · exact Or.inr h
+      rcases key rest hy with h | h
+      · subst h; omega
+      · exact hx y h
+    · rename_i hge
+      refine List.pairwise_cons.mpr ⟨?_, h⟩
+      intro y hy
+      rcases List.mem_cons.mp hy with h | h
+      · subst h; omega
+      · have := hx y h; omega
+
+/-- **table_insert_ranked**: the insertion keeps the rank order (what the size limit and the content builder of the legacy trainer rely on: best segments first) -/
+theorem table_insert_ranked (maxSize : Nat) (t : List DictItem) (e : DictItem) (h : Ranked t) : Ranked (insertItem maxSize t e) := by
+  unfold Ranked insertItem
+  rw [List.pairwise_reverse]
+  apply insertFromEnd_ascending
+  rw [List.pairwise_reverse]
+  exact List.Pairwise.sublist (List.take_sublist _ _) h
+
+example : (insertAll 4 [⟨0, 5⟩, ⟨1, 9⟩, ⟨2, 1⟩, ⟨3, 7⟩, ⟨4, 7⟩, ⟨5, 3⟩]).map (·.id) = [1, 3, 5] := by decide
+example : (insertAll 2 [⟨0, 5⟩, ⟨1, 9⟩, ⟨2, 1⟩]).map (·.id) = [2] := by decide      -- one usable slot: the newest candidate always takes it
+
 example : finalizeLayout 100 2950 3000 = some (3000, 0, 2900) ∧ finalizeLayout 100 3 3000 = some (108, 5, 3) ∧ finalizeLayout 100 50 104 = none := by decide
 example : (brun {} [.dispatch 0, .dispatch 1, .finish 1 90, .finish 0 70, .waitReturn]).map (·.best) = some (some (70, 0)) := by decide
 example : brun {} [.dispatch 0, .waitReturn] = none := by decide      -- the wait cannot return while a counted job is outstanding
